@@ -287,7 +287,22 @@ pub fn run(opts: &Opts) -> i32 {
         }
         let handles = Backend::max_handles(kind);
         let alpha = alphabet(kind, handles, opts.tier);
-        let seqs = sequences(&alpha, depth);
+        let mut seqs = sequences(&alpha, depth);
+        if kind == BackendKind::GitRemote {
+            // a few directed deeper sequences around a clone that is behind its remote (the
+            // exhaustive depth is small for this backend because every call costs several git
+            // processes)
+            use Call::*;
+            use ParentSel::*;
+            let a0 = Add { h: 0, parent: Latest, payload: Payload::Small };
+            seqs.extend([
+                vec![a0, GetChild { h: 1, of: 0 }, Add { h: 1, parent: Nil, payload: Payload::Small }],
+                vec![a0, a0, GetChild { h: 1, of: 1 }, Add { h: 1, parent: First, payload: Payload::Small }],
+                vec![a0, GetChild { h: 1, of: 0 }, a0, GetChild { h: 1, of: 1 }, Add { h: 1, parent: First, payload: Payload::Small }],
+                vec![a0, GetChild { h: 1, of: 0 }, Add { h: 1, parent: Latest, payload: Payload::Small }, GetChild { h: 0, of: 1 }, GetChild { h: 0, of: 2 }],
+                vec![a0, Add { h: 1, parent: Latest, payload: Payload::Small }, a0, GetChild { h: 1, of: 2 }, GetChild { h: 1, of: 3 }],
+            ]);
+        }
         let skipped = std::sync::atomic::AtomicU64::new(0);
         let work = || -> Vec<(usize, Result<(bool, usize), String>)> {
             seqs.par_iter()
@@ -334,7 +349,7 @@ pub fn run(opts: &Opts) -> i32 {
             rep.set("exhaustive", false);
         }
         rep.add("states", seqs.len() as u64);
-        rep.add("transitions", (seqs.len() * depth) as u64);
+        rep.add("transitions", seqs.iter().map(|s| s.len() as u64).sum::<u64>());
         rep.add("traces_validated_against_impl", seqs.len() as u64 - sk);
         rep.add("distinct_nontrivial", nontrivial);
         rep.set(&format!("backend_{kind:?}"), json!({"handles": handles, "alphabet": alpha.len(), "depth": depth, "sequences": seqs.len(), "skipped_for_budget": sk, "with_rejection": nontrivial, "longest_chain": maxlen}));
